@@ -23,7 +23,7 @@ def one(d):
     rc = m.group(1) if m else "?"
     if conf == "CONFIRMED" and rc == "1" and "--keep" in sys.argv:
         env2 = dict(os.environ, SUMMARY=summ)
-        subprocess.run([sys.executable, os.path.join(V, "lib", "keep_seed.py"), d, prop, pkg.strip("/"), "CONFIRMED", "yes"], env=env2, stdout=subprocess.DEVNULL)
+        subprocess.run([sys.executable, os.path.join(V, "lib", "keep_seed.py"), d, prop, pkg.strip("/"), "CONFIRMED", ("strengthened" if "--strengthened" in sys.argv else "yes")], env=env2, stdout=subprocess.DEVNULL)
     open(os.path.join(d, "lead_result.txt"), "w").write(c[-1500:] + "\n---\n" + t[-1500:])
     return d, prop, conf, rc, summ
 dirs = []
